@@ -60,6 +60,9 @@ func (g *Gen) Mine() bool { return g.seen%g.n == g.shard }
 
 // Count records one observation of a categorical dimension of the input distribution.
 func (g *Gen) Count(dim, val string) {
+	if g.seen%g.n != g.shard {
+		return // statistics describe the inputs of this shard only (shards are summed afterwards)
+	}
 	m := g.hist[dim]
 	if m == nil {
 		m = map[string]int{}
@@ -154,6 +157,12 @@ func (r *runner) run(raw json.RawMessage) json.RawMessage {
 		stderr = stderr[:2000]
 	}
 	r.cmd = nil
+	if od, ok := r.eng.(interface {
+		OnDeath(exit int, stderr string) interface{}
+	}); ok {
+		b, _ := json.Marshal(od.OnDeath(code, stderr))
+		return b
+	}
 	b, _ := json.Marshal(map[string]interface{}{"died": true, "exit": code, "stderr": stderr, "partial_stdout": string(line)})
 	return b
 }
